@@ -74,6 +74,7 @@ class Air:
         self.collisions = 0
         self.hook = None        # optional callback(rec) after delivery
         self.blackout = False   # harness-switched fault: every packet is lost while set
+        self.mute = set()       # harness-switched fault: names of radios whose transmissions are lost
 
     # ------------------------------------------------------------------ registry
     def register(self, radio):
@@ -138,6 +139,12 @@ class Air:
     def _finish(self, rec):
         self.active.remove(rec)
         pkt = rec["pkt"]
+        if rec["src"] in self.mute:
+            # explicit harness-switched fault: everything this radio transmits is lost (its receiver keeps working)
+            self.plan.fired["mute"] = self.plan.fired.get("mute", 0) + 1
+            rec["rx"].append(("*", "fault:mute"))
+            self.sim.log("fault", rec["src"], "mute", rec["n"])
+            return
         if self.blackout:
             # explicit fault: nothing transmitted during a blackout reaches anybody
             self.plan.fired["blackout"] = self.plan.fired.get("blackout", 0) + 1
